@@ -14,3 +14,7 @@ mod tests;
 
 #[cfg(test)]
 pub(crate) use indexer::AsyncRichIndexer;
+
+/// Verification hooks (feature `verif-hooks`): public wrappers around the crate-private indexer.
+#[cfg(feature = "verif-hooks")]
+pub mod verif;
